@@ -1,8 +1,6 @@
 package main
 
 import (
-	"sync/atomic"
-	"encoding/base64"
 	"bytes"
 	"context"
 	"crypto/ecdsa"
@@ -11,6 +9,7 @@ import (
 	"crypto/tls"
 	"crypto/x509"
 	"crypto/x509/pkix"
+	"encoding/base64"
 	"encoding/xml"
 	"errors"
 	"fmt"
@@ -23,6 +22,7 @@ import (
 	"strconv"
 	"strings"
 	"sync"
+	"sync/atomic"
 	"time"
 
 	xmpp "gosrc.io/xmpp"
@@ -61,11 +61,15 @@ func mintCA(cn string) (*x509.Certificate, *ecdsa.PrivateKey) {
 }
 
 func mintLeaf(ca *x509.Certificate, cakey *ecdsa.PrivateKey, names []string, expired bool) tls.Certificate {
-	key, _ := ecdsa.GenerateKey(elliptic.P256(), crand.Reader)
 	nb, na := time.Now().Add(-time.Hour), time.Now().Add(24*time.Hour)
 	if expired {
 		nb, na = time.Now().Add(-48*time.Hour), time.Now().Add(-24*time.Hour)
 	}
+	return mintLeafAt(ca, cakey, names, nb, na)
+}
+
+func mintLeafAt(ca *x509.Certificate, cakey *ecdsa.PrivateKey, names []string, nb, na time.Time) tls.Certificate {
+	key, _ := ecdsa.GenerateKey(elliptic.P256(), crand.Reader)
 	tpl := &x509.Certificate{SerialNumber: big.NewInt(2), Subject: pkix.Name{CommonName: names[0]},
 		NotBefore: nb, NotAfter: na, DNSNames: names,
 		KeyUsage: x509.KeyUsageDigitalSignature, ExtKeyUsage: []x509.ExtKeyUsage{x509.ExtKeyUsageServerAuth}}
@@ -84,8 +88,12 @@ func getPKI() *negPKI {
 			"wronghost": mintLeaf(ca, cakey, []string{"other.example"}, false),
 			"untrusted": mintLeaf(other, otherkey, []string{"localhost"}, false),
 			"expired":   mintLeaf(ca, cakey, []string{"localhost"}, true),
-			"both":      mintLeaf(ca, cakey, []string{"localhost", "alt.example"}, false),
-			"altonly":   mintLeaf(ca, cakey, []string{"alt.example"}, false),
+			// validity periods that end, or begin, a few minutes away from now: expired is expired, not yet valid is
+			// not yet valid, whatever the margin
+			"justexpired": mintLeafAt(ca, cakey, []string{"localhost"}, time.Now().Add(-48*time.Hour), time.Now().Add(-3*time.Minute)),
+			"notyet":      mintLeafAt(ca, cakey, []string{"localhost"}, time.Now().Add(3*time.Minute), time.Now().Add(48*time.Hour)),
+			"both":        mintLeaf(ca, cakey, []string{"localhost", "alt.example"}, false),
+			"altonly":     mintLeaf(ca, cakey, []string{"alt.example"}, false),
 		}
 	})
 	return &pki
@@ -100,7 +108,7 @@ func certParams(class string) (ca, unexp bool, names []string) {
 		return true, true, []string{"other.example"}
 	case "untrusted":
 		return false, true, []string{"localhost"}
-	case "expired":
+	case "expired", "justexpired", "notyet":
 		return true, false, []string{"localhost"}
 	case "both":
 		return true, true, []string{"localhost", "alt.example"}
@@ -490,7 +498,15 @@ func (sv *negServer) serve(conn net.Conn) {
 				case "result":
 					w("<iq type='result' id='" + iq.ID + "'/>")
 				case "error":
-					w("<iq type='error' id='" + iq.ID + "'><error type='wait'><internal-server-error xmlns='urn:ietf:params:xml:ns:xmpp-stanzas'/></error></iq>")
+					// a refusal is a refusal, whatever its type and condition
+					switch sv.variant % 3 {
+					case 0:
+						w("<iq type='error' id='" + iq.ID + "'><error type='wait'><internal-server-error xmlns='urn:ietf:params:xml:ns:xmpp-stanzas'/></error></iq>")
+					case 1:
+						w("<iq type='error' id='" + iq.ID + "'><session xmlns='urn:ietf:params:xml:ns:xmpp-session'/><error type='cancel'><not-allowed xmlns='urn:ietf:params:xml:ns:xmpp-stanzas'/></error></iq>")
+					default:
+						w("<iq type='error' id='" + iq.ID + "'><error type='cancel'><feature-not-implemented xmlns='urn:ietf:params:xml:ns:xmpp-stanzas'/></error></iq>")
+					}
 				case "noniq":
 					w("<message xmlns='jabber:client' type='result'/>")
 				case "undecL":
@@ -509,6 +525,9 @@ func (sv *negServer) serve(conn net.Conn) {
 			switch m["en"] {
 			case "enabled1":
 				w("<enabled xmlns='" + nsSM + "' id='" + id + "' resume='true'/>")
+			case "enabled1b":
+				// the other lexical form of an XML boolean
+				w("<enabled xmlns='" + nsSM + "' id='" + id + "' resume='1'/>")
 			case "enabled0":
 				if sv.variant%2 == 0 {
 					w("<enabled xmlns='" + nsSM + "' id='" + id + "' resume='false'/>")
@@ -1146,7 +1165,7 @@ var negAlt = map[string][]string{
 	"f1":   {"none"},
 	"tls":  {"failure", "other", "closed"},
 	"hs":   {"false", "alert"},
-	"cert": {"wronghost", "untrusted", "expired"},
+	"cert": {"wronghost", "untrusted", "expired", "justexpired", "notyet"},
 	"o2":   {"false"},
 	"f2":   {"none", "0011"},
 	"auth": {"failure", "other", "undec", "undecL"},
@@ -1249,7 +1268,7 @@ func (np negProp) Generate(rng *rand.Rand, tier string, st *Stats) []Case {
 
 	// a stream-management id with markup characters in it: what the client presents on the next connection is that
 	// id, properly escaped
-	for _, id := range []string{"sm&1'<x>\"y", "a b\tc", "é<![CDATA["} {
+	for _, id := range []string{"sm&1'<x>\"y", "a b\tc", "é<![CDATA[", " sm-lead", "sm-trail ", "\tsm-both \n"} {
 		mk(true, true, happy(false, false, true).with("smid", hx(id)).op(), []string{"setinbound", "2"},
 			happy(false, false, true).with("smid", hx("sm-next")).op())
 		st.Inc("sm_id_with_markup")
@@ -1314,7 +1333,7 @@ func (np negProp) Generate(rng *rand.Rand, tier string, st *Stats) []Case {
 			for _, roots := range []string{"true", "false"} {
 				for _, skip := range []string{"true", "false"} {
 					for _, sn := range []string{"-", hx("localhost"), hx("alt.example")} {
-						for _, cert := range []string{"valid", "wronghost", "untrusted", "expired", "both", "altonly"} {
+						for _, cert := range []string{"valid", "wronghost", "untrusted", "expired", "both", "altonly", "justexpired", "notyet"} {
 							mk(insecure, false, happy(true, false, false).with("roots", roots, "skip", skip, "sn", sn, "cert", cert).op())
 							st.Inc("tls_matrix")
 						}
